@@ -6,10 +6,12 @@ does not re-test the pure properties C01/C03/C08 through the back door.
 
 Types:  ["int"] ["float"] ["arr", "int"|"float", n] ["arr2"] (= int[2][3])
         ["struct"] (= P {int x; float y;})  ["vec", "int"|"float", n]
-        ["sq", n] (= int[n][n], locals)  ["structq"] (= Q {P p; int[2] a; int z;}, locals)
+        ["sq", n] (= int[n][n], locals)  ["structq"] (= Q {P p; int[2] a; int z;})
+        ["mat"] (= float4x4, globals)
 Exprs:  ["lit", v] ["var", name] ["idx", name, e] ["idx2", name, e1, e2]
         ["fld", name, field] ["fld2", name, f1, f2] ["fldidx", name, field, e]
         ["bin", op, a, b] ["call", fname, [e...]]
+        vector-valued: ["var", v] ["vcons", base, n, [e...]] ["vbin", "+"|"-", va, vb] ["vscale", va, e]
 Stmts:  ["decl", type, name, init|None] ["assign", lvalue, "="|"+="|"-="|"*=", e]
         ["swz", name, comp, e] ["incdec", "++"|"--", name, postfix?]
         ["if", cond, then, else|None] ["for", var, bound, body]
@@ -38,6 +40,8 @@ def type_src(t):
         return f"int[{t[1]}][{t[1]}]"
     if k == "structq":
         return "Q"
+    if k == "mat":
+        return "float4x4"
     raise ValueError(t)
 
 
@@ -57,6 +61,8 @@ def zero(t):
         return [[0] * t[1] for _ in range(t[1])]
     if k == "structq":
         return {"p": {"x": 0, "y": 0}, "a": [0, 0], "z": 0}
+    if k == "mat":
+        return [[0] * 4 for _ in range(4)]
     raise ValueError(t)
 
 
@@ -81,6 +87,10 @@ def rand_value(rng, t):
         return {"x": ri(), "y": rf()}
     if k == "vec":
         return [ri() if t[1] == "int" else rf() for _ in range(t[2])]
+    if k == "structq":
+        return {"p": {"x": ri(), "y": rf()}, "a": [ri(), ri()], "z": ri()}
+    if k == "mat":
+        return [[rf() for _ in range(4)] for _ in range(4)]
     raise ValueError(t)
 
 
@@ -108,6 +118,12 @@ def esrc(e):
         return f"({esrc(e[2])} {e[1]} {esrc(e[3])})"
     if k == "call":
         return f"{e[1]}(" + ", ".join(esrc(a) for a in e[2]) + ")"
+    if k == "vcons":
+        return f"{e[1]}{e[2]}(" + ", ".join(esrc(a) for a in e[3]) + ")"
+    if k == "vbin":
+        return f"({esrc(e[2])} {e[1]} {esrc(e[3])})"
+    if k == "vscale":
+        return f"({esrc(e[1])} * {esrc(e[2])})"
     raise ValueError(e)
 
 
@@ -158,7 +174,7 @@ def function_src(f):
 
 def program_src(prog):
     out = ["struct P { int x; float y; }\n"]
-    if '"structq"' in json.dumps(prog["functions"]):
+    if '"structq"' in json.dumps([prog["functions"], prog["globals"]]):
         out.append("struct Q { P p; int[2] a; int z; }\n")
     for name, t in prog["globals"]:
         out.append(f"{type_src(t)} {name};\n")
@@ -247,6 +263,16 @@ class Model:
         if k == "call":
             args = [self.ev(a, L) for a in e[2]]
             return self.call(e[1], args)
+        if k == "vcons":
+            return [self.ev(a, L) for a in e[3]]
+        if k == "vbin":
+            a = self.ev(e[2], L)
+            b = self.ev(e[3], L)
+            return [x + y if e[1] == "+" else x - y for x, y in zip(a, b)]
+        if k == "vscale":
+            a = self.ev(e[1], L)
+            f = self.ev(e[2], L)
+            return [x * f for x in a]
         if k == "bin":
             a = self.ev(e[2], L)
             b = self.ev(e[3], L)
@@ -281,6 +307,8 @@ class Model:
 
     def store(self, lv, v, L):
         k = lv[0]
+        if isinstance(v, list):
+            v = list(v)  # vectors are values: assignment copies
         if k == "var":
             if lv[1] in L:
                 L[lv[1]] = v
@@ -335,7 +363,8 @@ class Model:
             if k == "decl":
                 L[s[2]] = zero(s[1])
                 if s[3] is not None:
-                    L[s[2]] = self.ev(s[3], L)
+                    v = self.ev(s[3], L)
+                    L[s[2]] = list(v) if isinstance(v, list) else v
             elif k == "assign":
                 if s[2] == "=":
                     v = self.ev(s[3], L)
